@@ -87,19 +87,31 @@ func c18firstHop(c *Ctx) {
 				if s.Kind != core.KClosure {
 					return "NetDial", false
 				}
-				f := s.Ref.(*ssa.Function)
-				good := false
-				for _, b := range f.Blocks {
-					for _, in := range b.Instrs {
-						if call, isCall := in.(ssa.CallInstruction); isCall {
+				// the adapter (closure, or bound method value) calls d.NetDial, directly or through one in-package method
+				var callsField func(f *ssa.Function, depth int) bool
+				callsField = func(f *ssa.Function, depth int) bool {
+					if f == nil || depth > 2 {
+						return false
+					}
+					for _, b := range f.Blocks {
+						for _, in := range b.Instrs {
+							call, isCall := in.(ssa.CallInstruction)
+							if !isCall {
+								continue
+							}
 							if u, isU := call.Common().Value.(*ssa.UnOp); isU {
 								if fa, isFA := u.X.(*ssa.FieldAddr); isFA && fieldOf(fa).Name() == "NetDial" {
-									good = true
+									return true
 								}
+							}
+							if g := call.Common().StaticCallee(); g != nil && c.P.InPkg(g) && callsField(g, depth+1) {
+								return true
 							}
 						}
 					}
+					return false
 				}
+				good := callsField(s.Ref.(*ssa.Function), 0)
 				return "NetDial", good
 			}
 			return "net.Dialer", s.Kind == core.KClosure && strings.Contains(s.Ref.(*ssa.Function).String(), "net.Dialer).DialContext")
@@ -270,10 +282,19 @@ func c18ports(c *Ctx) {
 		var colon, bracket *core.Term
 		for i := range p.Events {
 			ev := &p.Events[i]
-			if ev.Kind == core.EvCall && ev.Static != nil && extName(ev.Static) == "strings.LastIndex" && isHost(ev.Args[0]) {
-				if s, _ := ev.Args[1].StrVal(); s == ":" {
+			if ev.Kind == core.EvCall && ev.Static != nil && isHost(ev.Args[0]) {
+				sep := ""
+				switch extName(ev.Static) {
+				case "strings.LastIndex":
+					sep, _ = ev.Args[1].StrVal()
+				case "strings.LastIndexByte":
+					if v, isC := ev.Args[1].Int64(); isC {
+						sep = string(rune(v))
+					}
+				}
+				if sep == ":" {
 					colon = ev.Result
-				} else if s == "]" {
+				} else if sep == "]" {
 					bracket = ev.Result
 				}
 			}
